@@ -1091,12 +1091,15 @@ EXTRACTOR_MODULE = {"gen_complement": "Gen.Complement", "gen_dna2int": "Gen.Dna2
                     "gen_limits": "Gen.Limits", "gen_tbcodes": "Gen.TbCodes", "gen_occ": "Gen.Occ", "gen_saiswidth": "Gen.SaisWidth"}
 # gensa: the suffix-array construction (C03) — dialect module tools/rs2lean_gensa.py; Thm/C03.lean imports RbV.Thm.GenSrcLcp (…)
 TRANSLATOR_MODULES.append("rs2lean_gensa")
-GEN_SRC.update({n: gen_src(n) for n in ("SrcLcp", "SrcTransform", "SrcPosTypes", "SrcSaisBuckets")})
-EXTRACTORS["C03"] = EXTRACTORS["C03"] + [GEN_SRC["SrcAlphabet"]] + [GEN_SRC[n] for n in ("SrcLcp", "SrcTransform", "SrcPosTypes", "SrcSaisBuckets")]
+GEN_SRC.update({n: gen_src(n) for n in ("SrcLcp", "SrcTransform", "SrcPosTypes", "SrcSaisBuckets", "SrcSaisCalcPos", "SrcSaisLms")})
+EXTRACTORS["C03"] = EXTRACTORS["C03"] + [GEN_SRC["SrcAlphabet"]] + [GEN_SRC[n] for n in ("SrcLcp", "SrcTransform", "SrcPosTypes", "SrcSaisBuckets", "SrcSaisCalcPos", "SrcSaisLms")]
 SOFT_TRANSFORM = soft_modules(["RbV.Thm.GenSrcTransformModel"], "the mirror model `Sais.transformText` no longer gives the numbers of "
                                 "`transform_text` (the property-level theorem `transform_text_source_eq_model`, `Transform.Ok`, is "
                                 "checked separately)")
 EXTRACTORS["C03"] = EXTRACTORS["C03"] + [SOFT_TRANSFORM]
+SOFT_LCP = soft_modules(["RbV.Thm.GenSrcLcpModel"], "the mirror model `Kasai.kasaiGo` no longer follows `lcp` step by step (the "
+                        "property-level theorem `lcp_source_exact` is model-free and checked separately)")
+EXTRACTORS["C03"] = EXTRACTORS["C03"] + [SOFT_LCP]
 
 # genalign: the pairwise aligner (C01; the traceback cell / matrix part also C02) — dialect "align" of tools/rs2lean_genalign.py;
 # Thm/C01.lean imports RbV.Thm.GenSrcPw* and restates the theorems
